@@ -1,9 +1,9 @@
 CONSTANTS
   Streams = {1, 2}
-  Bodies = {0, 1, 3, 6}
-  Wins = {0, 1, 2, 4}
-  ConnWins = {1, 3, 20}
-  Incs = {1, 2}
+  Bodies = {0, 2, 5}
+  Wins = {0, 1, 3}
+  ConnWins = {1, 4, 20}
+  Incs = {1, 3}
   Mfs = 2
   MaxOps = 4
   Defects = {}
